@@ -104,18 +104,24 @@ impl SampleQueueSender {
     /// it is mapped to a typed error by the single real caller.
     #[allow(clippy::result_unit_err)]
     pub fn send(&self, sample: MediaSample) -> Result<(), ()> {
+        #[cfg(rustrtc_verif)]
+        crate::verif_sched::yield_point(crate::verif_sched::SRC_LOAD_CLOSED);
         if self.closed.load(std::sync::atomic::Ordering::Acquire) {
             return Err(());
         }
 
         let sample = match self.queue.push(sample) {
             Ok(()) => {
+                #[cfg(rustrtc_verif)]
+                crate::verif_sched::yield_point(crate::verif_sched::SRC_NOTIFY_ONE);
                 self.notify.notify_one();
                 return Ok(());
             }
             Err(sample) => sample,
         };
 
+        #[cfg(rustrtc_verif)]
+        crate::verif_sched::yield_point(crate::verif_sched::SRC_TRY_LOCK);
         let _guard = match self.pop_lock.try_lock() {
             Some(g) => g,
             None => return Ok(()),
@@ -123,18 +129,26 @@ impl SampleQueueSender {
 
         let _ = self.queue.pop();
         if self.queue.push(sample).is_ok() {
+            #[cfg(rustrtc_verif)]
+            crate::verif_sched::yield_point(crate::verif_sched::SRC_NOTIFY_ONE);
             self.notify.notify_one();
         }
+        #[cfg(rustrtc_verif)]
+        crate::verif_sched::yield_point(crate::verif_sched::SRC_UNLOCK);
         Ok(())
     }
 
     pub fn try_send(&self, sample: MediaSample) -> Result<(), MediaSample> {
+        #[cfg(rustrtc_verif)]
+        crate::verif_sched::yield_point(crate::verif_sched::SRC_LOAD_CLOSED);
         if self.closed.load(std::sync::atomic::Ordering::Acquire) {
             return Err(sample);
         }
 
         match self.queue.push(sample) {
             Ok(()) => {
+                #[cfg(rustrtc_verif)]
+                crate::verif_sched::yield_point(crate::verif_sched::SRC_NOTIFY_ONE);
                 self.notify.notify_one();
                 Ok(())
             }
@@ -145,8 +159,12 @@ impl SampleQueueSender {
 
 impl Drop for SampleQueueSender {
     fn drop(&mut self) {
+        #[cfg(rustrtc_verif)]
+        crate::verif_sched::yield_point(crate::verif_sched::SRC_DROP_STORE_CLOSED);
         self.closed
             .store(true, std::sync::atomic::Ordering::Release);
+        #[cfg(rustrtc_verif)]
+        crate::verif_sched::yield_point(crate::verif_sched::SRC_DROP_NOTIFY);
         self.notify.notify_waiters();
     }
 }
@@ -155,17 +173,31 @@ impl SampleQueueReceiver {
     pub async fn recv(&mut self) -> Option<MediaSample> {
         loop {
             {
+                #[cfg(rustrtc_verif)]
+                crate::verif_sched::yield_point(crate::verif_sched::Q_LOCK);
                 let _guard = self.pop_lock.lock();
                 if let Some(sample) = self.queue.pop() {
+                    #[cfg(rustrtc_verif)]
+                    crate::verif_sched::yield_point(crate::verif_sched::Q_UNLOCK_RET);
                     return Some(sample);
                 }
+                #[cfg(rustrtc_verif)]
+                crate::verif_sched::yield_point(crate::verif_sched::Q_LOAD_CLOSED1);
                 if self.closed.load(std::sync::atomic::Ordering::Acquire) {
+                    #[cfg(rustrtc_verif)]
+                    crate::verif_sched::yield_point(crate::verif_sched::Q_UNLOCK_EOS);
                     return None;
                 }
+                #[cfg(rustrtc_verif)]
+                crate::verif_sched::yield_point(crate::verif_sched::Q_UNLOCK_WAIT);
             }
 
+            #[cfg(rustrtc_verif)]
+            crate::verif_sched::yield_point(crate::verif_sched::Q_NOTIFIED_CREATE);
             let notified = self.notify.notified();
             if self.queue.is_empty() && !self.closed.load(std::sync::atomic::Ordering::Acquire) {
+                #[cfg(rustrtc_verif)]
+                crate::verif_sched::yield_point(crate::verif_sched::Q_AWAIT);
                 notified.await;
             }
         }
